@@ -289,14 +289,18 @@ def _mk_go(msg):
     return BlockMessageOpMode(msg)
 
 
+GO_BASE = ["BlockMessageStruct", "BlockMessageSizeConst", "BlockMessageMethodSize", "BlockMessageMethodString"]
+GO_CODEC = ["BlockMessageMethodEncodeOpMode", "BlockMessageMethodDecodeOpMode"]
+
+
 def _go_kept(blk, msg):
     names = [type(b).__name__ for b in blk.blocks()]
-    base = ["BlockMessageStruct", "BlockMessageSizeConst", "BlockMessageMethodSize", "BlockMessageMethodString"]
-    if names == base:
-        return False
-    if names == base + ["BlockMessageMethodEncodeOpMode", "BlockMessageMethodDecodeOpMode"]:
-        return True
-    raise EN.Unsupported("unexpected block list %r" % names)
+    kept = any(n in names for n in GO_CODEC)
+    # whether or not the message is selected, its type, size constant, Size() and String() are still emitted, and a selected
+    # message gets both Encode and Decode (all built from the message alone)
+    ok = sorted(names) == sorted(GO_BASE + (GO_CODEC if kept else [])) and all(getattr(b, "d", None) is msg for b in blk.blocks())
+    EN.cur().oblige("post:declarations-still-emitted%s" % ("" if ok else " (got %s)" % names), z3.BoolVal(ok))
+    return kept
 
 
 _filter_proof("py:renderer_c.BlockBoundDefinitionListOpMode.dispatch", "compiler/bitproto/renderer/impls/c/renderer_c.py",
